@@ -235,6 +235,8 @@ TraceMatch ==
                       \E i \in DOMAIN c.mfail : ~\E j \in DOMAIN E.errm : E.errm[j] = c.mfail[i]
                    THEN <<MM("matcher.unnamed", "", "", st, p, hdr, "")>> ELSE <<>>
          \* learned text must be stable: the same value identity always stores the same lines
+         \* C14: what was just stored parses to the same JSON value as the input
+         lossMM == IF E.lossless = "no" THEN <<MM("json.lossy", "", "", st, p, hdr, "")>> ELSE <<>>
          detMM == IF ~c.val.known /\ c.val.vid \in DOMAIN fmtOf /\ Writes(eff) /\ E.hasfs
                      /\ seen # fmtOf[c.val.vid]
                   THEN <<MM("format.unstable", "", "", st, p, hdr, c.val.vid)>> ELSE <<>>
@@ -267,7 +269,7 @@ TraceMatch ==
             k2   == ~sa /\ \E i \in DOMAIN pre.entries : \E j \in DOMAIN pre.entries[i].b :
                               pre.entries[i].b[j] = hdr
             sigs == (IF k1 THEN "K1 " ELSE "") \o (IF k2 THEN "K2 " ELSE "")
-            all == WithSig(outMM \o nameMM \o detMM \o fsMM, sigs)
+            all == WithSig(outMM \o nameMM \o detMM \o lossMM \o fsMM, sigs)
             pred == ImplPredict(fs, c, eff, hdr, p)
         IN /\ bad' = Report(all)
            /\ tainted' = Taint(all)
